@@ -256,15 +256,31 @@ def run_case(case):
                 plain.append(ag.id)
             if in_seam:
                 seam.append(ag.id)
-        try:
+        def ask():
             if q.get("positional"):         # all seven arguments by position (omitted leeways are their documented default 0)
-                got = env.get_agents_at(float(pt[0]), float(pt[1]), float(pt[2]), kwargs.get("leeway", 0.0), kwargs.get("x_leeway", 0.0),
-                                        kwargs.get("y_leeway", 0.0), kwargs.get("z_leeway", 0.0))
-            elif q.get("kw_point"):         # the query point by keyword too, trailing zero coordinates left to their defaults
+                return env.get_agents_at(float(pt[0]), float(pt[1]), float(pt[2]), kwargs.get("leeway", 0.0), kwargs.get("x_leeway", 0.0),
+                                         kwargs.get("y_leeway", 0.0), kwargs.get("z_leeway", 0.0))
+            if q.get("kw_point"):           # the query point by keyword too, trailing zero coordinates left to their defaults
                 pkw = {n_: float(v_) for n_, v_ in zip(("x_pos", "y_pos", "z_pos"), pt) if v_ != 0}
-                got = env.get_agents_at(**pkw, **kwargs)
-            else:
-                got = env.get_agents_at(float(pt[0]), float(pt[1]), float(pt[2]), **kwargs)
+                return env.get_agents_at(**pkw, **kwargs)
+            return env.get_agents_at(float(pt[0]), float(pt[1]), float(pt[2]), **kwargs)
+        try:
+            got = ask()
+            first_ids = [getattr(g, "id", g) for g in got] if isinstance(got, list) else None
+            if isinstance(got, list):
+                # the caller edits the list it was handed (drops itself, appends a marker) and asks the same question again
+                edited = list(got)
+                if got:
+                    got.pop(0)
+                got.append("junk")
+                again = ask()
+                if again is got or not isinstance(again, list) or [getattr(g, "id", g) for g in again] != first_ids:
+                    raise Violation("answer-changed-after-caller-edited-the-result",
+                                    f"query {q}: first answer {first_ids}; after the caller edited that list the same query answered "
+                                    f"{[getattr(g, 'id', g) for g in again] if isinstance(again, list) else again!r}")
+                got = edited
+        except Violation:
+            raise
         except Exception as e:
             raise Violation("query-raised", f"query {q} raised {type(e).__name__}: {e}")
         if not isinstance(got, list):
